@@ -593,7 +593,7 @@ func ruleC08Dur(c *Ctx) {
 		}
 		if isPlainCall(in) || isDeferOrGo(in) {
 			switch CalleeName(in) {
-			case "util.SyncDir":
+			case "util.SyncDir", fRep + "SyncDir":
 				return "clean", true
 			}
 		}
